@@ -242,6 +242,12 @@ def run(chk):
     mp = build.load_unit("librfn/posix/fibre_posix.c")
     chk.note_unit(mp)
     check_main_loop_clock(chk, mp)
+    # a request fibre_run_atomic accepted is received only if its slot has a flag bit: the queue's depth must fit the 32-bit
+    # flag word (C01 S10 on the static initialiser)
+    _pf, _ff = chk.rule_prefix, chk.rule_filter
+    chk.rule_prefix, chk.rule_filter = "C01.", None
+    fib.check_atomic_queue_geometry(chk, m, K, min_depth=1)
+    chk.rule_prefix, chk.rule_filter = _pf, _ff
     chk.rule_prefix = "C02."
     chk.rule_filter = lambda r: r.startswith("T1")
     C02.check_t1(chk, [(mp, [f.name for f in mp.defined_functions()])], K, 1)
